@@ -407,6 +407,14 @@ def check_scenario(arg):
                     break
                 if r != z3.unsat:
                     res['verdict'] = 'unknown'
+                elif len(out.setdefault('cross_checks', [])) < 2 and not isinstance(p.cond(), bool):
+                    try:
+                        from .common import cross_check
+                        cc = cross_check(list(s.assertions()), 'unsat', timeout_s=60)
+                        cc['obligation'] = name
+                        out['cross_checks'].append(cc)
+                    except Exception as e:   # pragma: no cover
+                        out['cross_checks'].append({'obligation': name, 'error': str(e)[:200], 'agree': None, 'results': {}})
                 s.pop()
             out['obligations'].append(res)
 
